@@ -124,3 +124,61 @@ def receiver_classes(ctx: Any, f: FuncInfo, recv: ast.AST) -> List[str]:
         return [f.cls.full]
     td = ctx.ty.type_of(f.module.name, recv)
     return ctx.ty.inst_names(td) or ['?']
+
+
+# ------------------------------------------------- role-based access to locals
+import copy as _copy  # noqa: E402
+
+
+def local_defs(f: FuncInfo) -> Dict[str, List[ast.AST]]:
+    """name -> list of value expressions assigned to that local (None for loop/with/unpack targets, AugAssign)."""
+    out: Dict[str, List[Any]] = {}
+    for st in walk_local_ordered(f.node):
+        if isinstance(st, ast.Assign):
+            for t in st.targets:
+                if isinstance(t, ast.Name):
+                    out.setdefault(t.id, []).append(st.value)
+                elif isinstance(t, (ast.Tuple, ast.List)):
+                    for e in ast.walk(t):
+                        if isinstance(e, ast.Name):
+                            out.setdefault(e.id, []).append(None)
+        elif isinstance(st, ast.AnnAssign) and isinstance(st.target, ast.Name) and st.value is not None:
+            out.setdefault(st.target.id, []).append(st.value)
+        elif isinstance(st, ast.AugAssign) and isinstance(st.target, ast.Name):
+            out.setdefault(st.target.id, []).append(None)
+        elif isinstance(st, (ast.For, ast.AsyncFor, ast.comprehension)):
+            for e in ast.walk(st.target):
+                if isinstance(e, ast.Name):
+                    out.setdefault(e.id, []).append(None)
+        elif isinstance(st, ast.NamedExpr):
+            out.setdefault(st.target.id, []).append(None)
+    return out
+
+
+def find_locals(f: FuncInfo, pred: Any) -> List[str]:
+    """Names of locals at least one of whose assigned values satisfies `pred`."""
+    return [n for n, vs in local_defs(f).items() if any(v is not None and pred(v) for v in vs)]
+
+
+def expand(f: FuncInfo, e: ast.AST, depth: int = 4) -> ast.AST:
+    """Copy of `e` with every single-definition local replaced by its definition (recursively)."""
+    defs = local_defs(f)
+    params = set(f.params)
+
+    class T(ast.NodeTransformer):
+        def __init__(self, d: int) -> None:
+            self.d = d
+
+        def visit_Name(self, n: ast.Name) -> ast.AST:
+            if isinstance(n.ctx, ast.Load) and n.id not in params and n.id in defs and len(defs[n.id]) == 1 and defs[n.id][0] is not None and self.d > 0:
+                v = defs[n.id][0]
+                if not any(isinstance(x, ast.Name) and x.id == n.id for x in ast.walk(v)):
+                    return T(self.d - 1).visit(_copy.deepcopy(v))
+            return n
+
+    return T(depth).visit(_copy.deepcopy(e))
+
+
+def xnorm(f: FuncInfo, e: ast.AST) -> str:
+    """Normalised text of `e` after expanding single-definition locals."""
+    return norm(expand(f, e))
